@@ -41,7 +41,7 @@ def main():
         res['checks'] = {}
         for prop in props.split(','):
             out = tempfile.mkdtemp(prefix='seedout-')
-            env = dict(os.environ, VERIF_REPO=wt, VERIF_OUT=out)
+            env = dict(os.environ, VERIF_REPO=wt, VERIF_OUT=out, VERIF_FAST_FAIL=os.environ.get('VERIF_FAST_FAIL', '1'))
             t0 = time.time()
             cmd = 'python3-vt -B -m vf.check %s --tier %s' % (prop, tier)
             if only:
